@@ -88,6 +88,25 @@ func reach(t *Tree, roots []*ssa.Function, dyn map[*ssa.Function][]*ssa.Function
 				work = append(work, d...)
 				return
 			}
+			// the value looked up in the task's function / checker table (v1), wherever the call sits
+			if ex, ok := cc.Value.(*ssa.Extract); ok && ex.Index == 0 && dyn != nil {
+				if gc, ok := ex.Tuple.(*ssa.Call); ok && gc.Call.StaticCallee() != nil && gc.Call.StaticCallee().Pkg != nil && gc.Call.StaticCallee().Pkg.Pkg.Path() == pRT {
+					run, chk := registryMaps(t)
+					var tab map[string]*ssa.Function
+					switch gc.Call.StaticCallee().Name() {
+					case "GetFuncCall":
+						tab = run
+					case "GetFuncCheck":
+						tab = chk
+					}
+					if len(tab) > 0 {
+						for _, k := range sortedKeys(tab) {
+							work = append(work, tab[k])
+						}
+						return
+					}
+				}
+			}
 			if u, ok := cc.Value.(*ssa.UnOp); ok {
 				if g, ok := u.X.(*ssa.Global); ok {
 					if tg := globalFuncTargets(t, g); len(tg) > 0 {
@@ -256,8 +275,24 @@ func loadScope(t *Tree) (map[*ssa.Function]bool, []dynSite) {
 // filled once by the package initialiser and never written elsewhere, see roTable): the callees are the function
 // values stored in the table. Struct-valued rows are followed one field deep.
 func tableFuncTargets(v ssa.Value) []*ssa.Function {
-	for i := 0; i < 4; i++ {
+	for i := 0; i < 6; i++ {
 		switch x := v.(type) {
+		case *ssa.Alloc: // a local copy of the row, assigned once
+			var stored ssa.Value
+			n := 0
+			if x.Referrers() != nil {
+				for _, r := range *x.Referrers() {
+					if st, ok := r.(*ssa.Store); ok && st.Addr == ssa.Value(x) {
+						stored = st.Val
+						n++
+					}
+				}
+			}
+			if n != 1 {
+				return nil
+			}
+			v = stored
+			continue
 		case *ssa.Extract:
 			v = x.Tuple
 			continue
